@@ -157,7 +157,14 @@ def run_path(eng, contract, types, src):
         try:
             return post_state(eng, contract, src, outcome)
         except PyRaise as e:
-            # a clause is not well defined on this path (its evaluation raises): undecided, never a crash
+            # a clause is not well defined on this path (its evaluation raises). First make sure the path exists at all: the path
+            # solver prunes with a short time-out, so an infeasible path can get here; decide it with the obligation budget.
+            try:
+                if smt.check_sat(eng.pc, sh.timeout_ms, want_model=False)[0] == "unsat":
+                    return 0
+            except Exception:
+                pass
+            # feasible (or undecided) path on which the clause raises: undecided, never a crash
             from .engine import Obligation
             ob = Obligation(sh.func_name, sh.variant_name, "clause_defined", "clause evaluation raised %s" % e.cls.__name__, e.line)
             ob.status = "unknown"
